@@ -22,3 +22,17 @@ claim("C26",
       "BlockHeader.PreCheck nil => header round = prev+1, Branch = prev.Hash(), and header UpgradeState == applyUpgradeVote(prev state, round, header vote).",
       "Versions drawn from {\"\", vA, vB}; parameters < 2^40 and rounds < 2^60 (no wrap), threshold <= voteRounds, voteRounds >= 1, threshold >= 1, min <= default <= max wait; "
       "block hash is an injective uninterpreted function. Composition of steps into whole histories is by induction on the invariant (paper).")
+
+claim("C24",
+      "CheckGroupFees is decided for all (feesPaid, usage, minFee): accepted only if feesPaid*1e6 >= minFee*usage (exact integers), rejected only if short or the requirement overflows. "
+      "validateForPayouts with proposerPayout, DivvyAlgos, AvailableBalance and the full MinBalance formula runs against an arbitrary fee-sink account and arbitrary header fields: "
+      "accepted => (payout - bonus)*100 <= percent*feesCollected, FeesCollected equals the evaluator's tally, payout == 0 or sink balance - payout >= sink MinBalance; payouts disabled => all three header fields zero.",
+      "Ledger state is a nondeterministic stub parent (roundCowParent) over a pool of 5 representative addresses; Payouts.Percent <= 100 (NewPercent's validity predicate). "
+      "Pure helpers (OMul/MulSaturate/...) are summarised by call merging.")
+
+claim("C27",
+      "validateExpiredOnlineAccounts / validateAbsentOnlineAccounts + isAbsent run against arbitrary account records, online stake and round, with lists of up to 3 (quick: 2 for absent) addresses drawn with repetition "
+      "from a representative pool: nil => length <= protocol maximum, no duplicates, every expired account has a vote key and VoteLastValid < round; every absent account is Online, non-zero, IncentiveEligible, "
+      "was seen before, and satisfies the stake-proportional rule lastSeen + floor(20*total/stake) < round in exact integers with lag <= MaxUint32.",
+      "Assumes the evaluator-maintained invariant LastProposed/LastHeartbeat <= round and round < 2^62 (otherwise lastSeen+lag wraps: excluded as an unreachable pre-state, see DESIGN). "
+      "Challenge-based absence (ChallengeInterval != 0) is outside this check (ChallengeInterval = 0).")
